@@ -675,10 +675,17 @@ func (r *HeaderFooterResult) FilterFragments(pageIndex int, fragments []text.Tex
 	// Detect coordinate system
 	invertedCoords := maxY > pageHeight
 
-	// Scale regions if content extends beyond page
+	// Measure the header/footer bands exactly as extractCandidates does: from
+	// the page edges, or, when the content extends beyond the page (inverted
+	// coordinates), from the content bounds with scaled regions. Measuring from
+	// the content bounds on a regular page would widen the bands beyond the
+	// region the detector looked at and remove body text that happens to
+	// repeat a header or footer.
+	refMinY, refMaxY := 0.0, pageHeight
 	headerRegion := r.Config.HeaderRegionHeight
 	footerRegion := r.Config.FooterRegionHeight
-	if contentHeight > pageHeight {
+	if invertedCoords {
+		refMinY, refMaxY = minY, maxY
 		scale := contentHeight / pageHeight
 		headerRegion *= scale
 		footerRegion *= scale
@@ -687,7 +694,7 @@ func (r *HeaderFooterResult) FilterFragments(pageIndex int, fragments []text.Tex
 	var filtered []text.TextFragment
 
 	for _, frag := range fragments {
-		if r.isInHeaderFooter(pageIndex, frag, minY, maxY, headerRegion, footerRegion, invertedCoords, charLevel) {
+		if r.isInHeaderFooter(pageIndex, frag, refMinY, refMaxY, headerRegion, footerRegion, invertedCoords, charLevel) {
 			continue
 		}
 		filtered = append(filtered, frag)
@@ -697,7 +704,7 @@ func (r *HeaderFooterResult) FilterFragments(pageIndex int, fragments []text.Tex
 }
 
 // isInHeaderFooter checks if a fragment is in a detected header/footer region
-func (r *HeaderFooterResult) isInHeaderFooter(pageIndex int, frag text.TextFragment, minY, maxY, headerRegion, footerRegion float64, invertedCoords, charLevel bool) bool {
+func (r *HeaderFooterResult) isInHeaderFooter(pageIndex int, frag text.TextFragment, refMinY, refMaxY, headerRegion, footerRegion float64, invertedCoords, charLevel bool) bool {
 	// Check headers
 	for _, header := range r.Headers {
 		if !containsPage(header.PageIndices, pageIndex) {
@@ -706,9 +713,9 @@ func (r *HeaderFooterResult) isInHeaderFooter(pageIndex int, frag text.TextFragm
 
 		var distFromTop float64
 		if invertedCoords {
-			distFromTop = frag.Y - minY
+			distFromTop = frag.Y - refMinY
 		} else {
-			distFromTop = maxY - (frag.Y + frag.Height)
+			distFromTop = refMaxY - (frag.Y + frag.Height)
 		}
 		if distFromTop < headerRegion {
 			// For character-level PDFs, use position-only filtering since
@@ -730,9 +737,9 @@ func (r *HeaderFooterResult) isInHeaderFooter(pageIndex int, frag text.TextFragm
 
 		var distFromBottom float64
 		if invertedCoords {
-			distFromBottom = maxY - (frag.Y + frag.Height)
+			distFromBottom = refMaxY - (frag.Y + frag.Height)
 		} else {
-			distFromBottom = frag.Y - minY
+			distFromBottom = frag.Y - refMinY
 		}
 		if distFromBottom < footerRegion {
 			// For character-level PDFs, use position-only filtering
